@@ -176,6 +176,27 @@ func execHashio(vec J, out *Writer) {
 		rec["new_ok"] = true
 		rec["steps"] = steps
 		out.Put(rec)
+	case "verifier_seq":
+		// one child process, a sequence of verifications: a rejected stream must not influence the next one
+		js, _ := json.Marshal(vec)
+		cmd := exec.Command(os.Args[0], "verifier-child", string(js))
+		var stdout bytes.Buffer
+		cmd.Stdout = &stdout
+		err := cmd.Run()
+		var all []J
+		if err != nil || json.Unmarshal(stdout.Bytes(), &all) != nil {
+			out.Put(J{"ev": "verifier", "in": vec, "died": true, "entry_alg": "", "hash_is": "none", "new_ok": false, "close_ok": false, "close2_ok": false, "size_ok": false, "n_entries": 0})
+			return
+		}
+		for i, obs := range all {
+			step := M(L(vec["steps"])[i])
+			one := J{"k": "verifier_seq", "alg": step["alg"], "source": step["source"], "recorded": step["recorded"], "len": step["len"],
+				"chunks": step["chunks"], "seed": step["seed"], "steps": vec["steps"], "step": i + 1}
+			obs["ev"] = "verifier"
+			obs["in"] = one
+			obs["died"] = false
+			out.Put(obs)
+		}
 	case "verifier":
 		// run in a child: the pinned code answers some algorithms with log.Fatalf
 		js, _ := json.Marshal(vec)
@@ -207,6 +228,20 @@ func verifierChild(args []string) {
 	if err := json.Unmarshal([]byte(args[0]), &vec); err != nil {
 		os.Exit(3)
 	}
+	if vec["k"] == "verifier_seq" {
+		all := []J{}
+		for _, s := range L(vec["steps"]) {
+			all = append(all, verifyOnce(M(s)))
+		}
+		js, _ := json.Marshal(all)
+		os.Stdout.Write(js)
+		return
+	}
+	js, _ := json.Marshal(verifyOnce(vec))
+	os.Stdout.Write(js)
+}
+
+func verifyOnce(vec J) J {
 	alg := vec["alg"].(string)
 	content := streamBytes(I(vec["len"]), I(vec["seed"]))
 	// the recorded hash
@@ -287,8 +322,7 @@ func verifierChild(args []string) {
 			obs["close2_ok"] = v.Close() == nil
 		}
 	}
-	js, _ := json.Marshal(obs)
-	os.Stdout.Write(js)
+	return obs
 }
 
 func genC12(seed int64, tier string, out *Writer) {
